@@ -9,6 +9,7 @@ cp /repo/go.sum harness/go.sum
 mkdir -p build
 python3 bin/genconsts.py /repo lean/OnetVerif/Generated.lean
 (cd harness && go build -o ../build/astfacts ./cmd/astfacts) && build/astfacts /repo lean/OnetVerif/Shapes.lean
+(cd harness && go build -o ../build/go2lean ./cmd/go2lean) && build/go2lean /repo lean meta/go2lean.json
 (cd lean && lake build)
 (cd harness && go build -tags verif -o ../build/onetharness_setup ./cmd/onetharness)
 echo setup ok
